@@ -226,6 +226,9 @@ def _h_step(ctx, shape, kinds, leader_pos, content_rev, op, argkinds):
             expected.groups.append([moved, [moved]])
             exp_out = "ok"
             gl.update({lead: list(rest), moved: [moved]})
+        elif op == "copy":
+            exp_out = "ok"
+            new = GroupedList(gl)  # copy of an arbitrary valid state (content-dict order may differ from the list order)
         elif op == "remove":
             ia = expected.leader_idx(a)
             if ia is None:
@@ -480,7 +483,7 @@ def obligations(tier):
     ops = [
         ("group", ["i", "i"]), ("group", ["__NAN__", "i"]), ("group", ["i", "__NAN__"]),
         ("group_list", ["i", "i", "i"]), ("append", ["i"]), ("append", ["s_new"]),
-        ("update_new", ["i", "i"]), ("update_existing", ["i"]), ("update_split", ["i"]), ("remove", ["i"]), ("remove", ["__NAN__"]),
+        ("update_new", ["i", "i"]), ("update_existing", ["i"]), ("update_split", ["i"]), ("copy", ["i"]), ("remove", ["i"]), ("remove", ["__NAN__"]),
         ("pop", ["i"]), ("sort", ["i"]), ("sort_by", ["i"]), ("replace_group_leader", ["i", "i"]),
         ("replace_group_leader", ["__NAN__", "i"]), ("lookup", ["i"]), ("lookup", ["__NAN__"]),
     ]
